@@ -11,6 +11,7 @@ import Cgp.Drive.Tk
 import Cgp.Drive.Gs
 import Cgp.Drive.Op
 import Cgp.Drive.Up
+import Cgp.Drive.Ex
 open Cgp Cgp.Tok
 
 inductive World where
@@ -20,6 +21,7 @@ inductive World where
   | gs (s : Cgp.Drive.Gs.GsS)
   | op (s : Cgp.Drive.Op.OpS)
   | up (s : Cgp.Drive.Up.UpS)
+  | ex (s : Cgp.Drive.Ex.ExS)
 
 structure Out where
   obs : String
@@ -33,6 +35,7 @@ def World.step (w : World) (t : List String) (implObs : String) : World × Out :
   | .gs s => let (s', o) := Cgp.Drive.Gs.step s t implObs; (.gs s', ⟨o.obs, o.kind⟩)
   | .op s => let (s', o) := Cgp.Drive.Op.step s t; (.op s', ⟨o.obs, o.kind⟩)
   | .up s => let (s', o) := Cgp.Drive.Up.step s t implObs; (.up s', ⟨o.obs, o.kind⟩)
+  | .ex s => let (s', o) := Cgp.Drive.Ex.step s t implObs; (.ex s', ⟨o.obs, o.kind⟩)
 
 def World.known : World → List String
   | .none => []
@@ -41,6 +44,7 @@ def World.known : World → List String
   | .gs _ => Cgp.Drive.Gs.known
   | .op _ => Cgp.Drive.Op.known
   | .up _ => Cgp.Drive.Up.known
+  | .ex _ => Cgp.Drive.Ex.known
 
 def newWorld (cluster : String) : World :=
   match cluster with
@@ -49,6 +53,7 @@ def newWorld (cluster : String) : World :=
   | "gs" => .gs {}
   | "op" => .op {}
   | "up" => .up {}
+  | "ex" => .ex {}
   | _ => .none
 
 structure RunAcc where
